@@ -112,6 +112,41 @@ Theorem C08_first_start_steps_are_the_start : forall g gfh,
 Proof. intros. split; reflexivity. Qed.
 Print Assumptions C08_first_start_steps_are_the_start.
 
+(* ... as ONE list of four durable steps, the way NewChainService performs
+   the first start (block store, then filter store). *)
+Theorem C08_first_start_chain_service_crash_recovers : forall g gfh k torn c,
+  first_start_crash_cs g gfh k torn = Some c ->
+  torn_le (first_steps_b g ++ first_steps_f g gfh) k torn ->
+  recover g gfh c = init g gfh.
+Proof. exact first_start_cs_crash_recovers. Qed.
+Print Assumptions C08_first_start_chain_service_crash_recovers.
+
+(* The theorems above are about the order block store, THEN filter store, and
+   depend on it.  Swapped (filter store first, as a start-up routine might do
+   "to check the assertion first"): the crash image after the filter store's
+   two steps and before the block store's genesis commit holds a filter tip
+   whose hash the index does not know.  The first constructor of that order,
+   NewFilterHeaderStore, rejects the image - with or without an assertion -
+   so the swapped start-up never gets past it; only the canonical order's
+   [recover] (block store first, which writes the missing index entry) would
+   still repair it. *)
+Definition swapped_image (g gfh : Z) : option store := apply_steps empty_store (first_steps_f g gfh).
+Definition recover_swapped (g gfh : Z) (s : store) : option store :=
+  match recover_filter gfh g s with
+  | Some s1 => recover_block g s1
+  | None => None
+  end.
+Example C08_first_start_order_matters :
+  exists c, swapped_image 7 1000000 = Some c /\
+    ents (ff c) = [1000000] /\ ftip c = Some 7 /\ idx c !! 7 = None /\ ents (bf c) = [] /\
+    recover_filter 1000000 7 c = None /\
+    recover_filter_assert 1000000 7 (Some (0, 1000000)) c = None /\
+    recover_swapped 7 1000000 c = None /\
+    (* a torn block genesis behind it changes nothing *)
+    recover_swapped 7 1000000 (set_bf c {| ents := []; junk := 41 |}) = None /\
+    recover 7 1000000 c = init 7 1000000.
+Proof. eexists. split; [reflexivity|]. repeat (split; [vm_compute; reflexivity|]). vm_compute; reflexivity. Qed.
+
 (* The repaired rule in general: a store whose index never recorded a tip is
    started over WHATEVER its file holds (any entries, any torn tail shorter
    than an entry) and whatever else the index holds. *)
